@@ -26,6 +26,21 @@ import (
 	"time"
 )
 
+// samples/*.fo with a `main` and an output that the source makes obvious: the repo's own examples
+// through the same fc + go pipeline (each is a package of its own).
+var c01Samples = []struct{ file, out, hazard string }{
+	{"tuple.fo", "abc\n", ""},
+	{"destr_let.fo", "a=123\n", ""},
+	{"inner_func.fo", "hit\n", ""},
+	{"pipe.fo", "[5 6]\n", ""},
+	{"sinterp.fo", "a is :123, b is str val\n", ""},
+	{"map.fo", "[a 5 a 6 a 7 a 8]\n", ""},
+	{"shorthand_prop.fo", "abc, def\n", ""},
+	// the union's generated String() methods call frt.Sprintf1 but the sample only imports "fmt": undefined: frt
+	{"union_match.fo", "ival=3\n", "union-needs-frt"},
+	{"noarg_funcall.fo", "match A\n", ""},
+}
+
 var c01Hazards = []string{"pap-effect", "unused-binder", "generic-union-match", "unit-typevar", "interp-block-start"}
 
 type c01Run struct {
@@ -374,7 +389,21 @@ func runC01(c *Ctx) {
 	for i, p := range loadCorpus(c, "C01", CheckOpts{AllowExtPartial: true}) {
 		addCase(p, fmt.Sprintf("corpus:%d", i))
 	}
-	n := c.Pick(300, 12000)
+	nsamples := 0
+	for i, sm := range c01Samples {
+		if !c.Thorough() && (i+int(c.Seed))%3 != 0 {
+			continue // quick: a third of them (one go build each)
+		}
+		b, err := os.ReadFile(filepath.Join(c.Tree, "samples", sm.file))
+		if err != nil {
+			c.Note("sample %s not found in the tree", sm.file)
+			continue
+		}
+		addCase(&Prog{RawFo: string(b), RawOut: sm.out, Hazard: sm.hazard, Main: blockOf(eUnit())}, "sample:"+sm.file)
+		nsamples++
+	}
+	c.CountN("repo_samples_run", nsamples)
+	n := c.Pick(300, 9000)
 	if v := os.Getenv("VH_N"); v != "" {
 		fmt.Sscan(v, &n)
 	}
